@@ -195,7 +195,10 @@ class ControlFlowTransformer(converter.Base):
 
     # Variables that are modified inside the scope, and depend on values outside
     # it.
-    input_only = basic_scope_vars & live_in - live_out
+    # Nonlocal and global variables are visible after the function returns,
+    # whatever the liveness inside it says.
+    input_only = (basic_scope_vars & live_in - live_out - fn_scope.nonlocals -
+                  fn_scope.globals)
 
     # Place the outputs first, then sort lexicographically.
     scope_vars = sorted(scope_vars, key=lambda v: (v in input_only, v))
